@@ -366,3 +366,12 @@ pub fn grid_poly(w: i32, h: i32, aligned: bool) -> BoxedStrategy<PathSpec> {
     let sub = if aligned { prop_oneof![1 => general, 3 => rect].boxed() } else { prop_oneof![3 => general, 1 => rect].boxed() };
     (prop::collection::vec(sub, 1..=2), any::<bool>()).prop_map(|(subs, evenodd)| PathSpec { ops: subs.concat(), evenodd }).boxed()
 }
+
+/// clip path made of 1-2 pixel-aligned rectangles: its antialiased coverage is exactly 0 or 255 everywhere
+pub fn pixel_rects_path(w: i32, h: i32) -> BoxedStrategy<PathSpec> {
+    let r = move || (-2..=w + 2, -2..=h + 2, -2..=w + 2, -2..=h + 2).prop_map(|(a, b, c, d)| {
+        let (a, b, c, d) = (a as f32, b as f32, c as f32, d as f32);
+        vec![POp::M(a, b), POp::L(c, b), POp::L(c, d), POp::L(a, d), POp::Z]
+    });
+    (prop::collection::vec(r(), 1..=2), any::<bool>()).prop_map(|(subs, evenodd)| PathSpec { ops: subs.concat(), evenodd }).boxed()
+}
